@@ -655,3 +655,11 @@ def _real_bound(a: dict):
 
 
 REGISTRY["C01.bound_values_reach_the_engine_unchanged"].real_replay = _real_bound
+
+
+# ------------------------------------------------------------------ "every written row is returned exactly once": the fetch path (shared with C05)
+import obligations.C05  # noqa: E402,F401
+from vf.registry import alias  # noqa: E402
+
+alias("C01.every_row_is_returned_exactly_once", "C05.exactly_once_in_order", "rows of a result reach the caller once each, in order, whatever mix of fetchone / fetchmany / fetchall / arraysize is used")
+alias("C01.rows_keep_one_value_per_column", "C05.full_width_any_names")
